@@ -32,6 +32,12 @@ func stackAlphabet(cfg Cfg, withEvict bool) []wire.Op {
 			p(wire.Op{Kind: "replace", Key: "b", Val: "r", Flags: 6, QuietW: true})
 			p(wire.Op{Kind: "add", Key: "a", Val: "n", Flags: 8, QuietW: true})
 			p(wire.Op{Kind: "append", Key: "b", Val: "u", QuietW: true})
+			p(wire.Op{Kind: "set", Key: "b", Val: "w", Flags: 3, QuietW: true})
+			p(wire.Op{Kind: "prepend", Key: "a", Val: "h", QuietW: true})
+			if cfg.Orca == "l1only" && cfg.L1H != "chunked" {
+				// get-with-expiry (L1-only deployments): the value, its flags and its remaining lifetime
+				p(wire.Op{Kind: "gete", Key: "a"})
+			}
 		}
 		p(wire.Op{Kind: "get", Key: "b"})
 		p(wire.Op{Kind: "set", Key: "b", Val: "x", Flags: 5, TTL: 0})
